@@ -35,6 +35,8 @@ type Request struct {
 	Raw      []byte // every byte received on the connection before the response was sent (and shortly after)
 	SNI      string
 	At       time.Time
+	Resumed  bool // the client presented a session ticket of an earlier connection (the server can link the two)
+	ALPN     string
 }
 
 type Plan struct {
@@ -43,7 +45,7 @@ type Plan struct {
 	Close        string        // "notify" (TLS close_notify + FIN), "fin" (FIN without close_notify), "rst"
 	Latency      time.Duration // before the first response byte
 	StallAt      int           // stop sending after this many bytes and hold the connection open (-1: no stall)
-	StallStage   string        // "pre-handshake": hold before the TLS handshake; "post-handshake": never read/answer; "" otherwise
+	StallStage   string        // "pre-handshake": hold before the TLS handshake; "no-read" (pre-plan only): handshake, then never read; "post-handshake": read the request, never answer; "" otherwise
 	TrickleFrom  int           // from this offset on send one byte per TrickleDelay (-1: no trickle)
 	TrickleDelay time.Duration
 	HoldMax      time.Duration // upper bound for stalls/trickles before the server gives up (default 60s)
@@ -111,10 +113,40 @@ func Start(dir string) (*Sim, error) {
 	os.Setenv("SSL_CERT_FILE", s.CAFile)
 	os.Setenv("SSL_CERT_DIR", emptyDir)
 	cfg := &tls.Config{Certificates: []tls.Certificate{{Certificate: [][]byte{leafDER}, PrivateKey: leafKey}}, MinVersion: tls.VersionTLS12}
+	// one ticket key for all connections (each connection uses a clone of cfg, and clones would otherwise draw their own keys):
+	// a client that keeps session tickets is then seen to resume, like against any real server
+	var ticketKey [32]byte
+	rand.Read(ticketKey[:])
+	cfg.SetSessionTicketKeys([][32]byte{ticketKey})
 
-	ln, err := net.Listen("tcp4", "0.0.0.0:0")
-	if err != nil {
-		return nil, err
+	// Ports written with the digits 3 and 4 only, the second port being a prefix of the first: authorities such as 127.0.0.3:34343,
+	// 127.0.0.4:34343 and 127.0.0.3:3434 are then distinct hosts that sloppy comparisons (prefix tests, trimming a set of
+	// characters, ignoring the port) take for the same one. Any free port is used when none of these can be bound.
+	var ln, alt net.Listener
+	var start [1]byte
+	rand.Read(start[:])
+	for i := 0; i < 32 && ln == nil; i++ {
+		bits := (int(start[0]) + i) % 32
+		main := 0
+		for d := 4; d >= 0; d-- {
+			main = main*10 + 3 + (bits>>d)&1
+		}
+		l1, err1 := net.Listen("tcp4", fmt.Sprintf("0.0.0.0:%d", main))
+		if err1 != nil {
+			continue
+		}
+		l2, err2 := net.Listen("tcp4", fmt.Sprintf("0.0.0.0:%d", main/10))
+		if err2 != nil {
+			l1.Close()
+			continue
+		}
+		ln, alt = l1, l2
+	}
+	if ln == nil {
+		var err error
+		if ln, err = net.Listen("tcp4", "0.0.0.0:0"); err != nil {
+			return nil, err
+		}
 	}
 	s.Port = ln.Addr().(*net.TCPAddr).Port
 	s.lns = append(s.lns, ln)
@@ -124,9 +156,10 @@ func Start(dir string) (*Sim, error) {
 		s.lns = append(s.lns, ln6)
 		go s.acceptLoop(ln6, "tls6", cfg)
 	}
-	alt, err := net.Listen("tcp4", "0.0.0.0:0")
-	if err != nil {
-		return nil, err
+	if alt == nil {
+		if alt, err = net.Listen("tcp4", "0.0.0.0:0"); err != nil {
+			return nil, err
+		}
 	}
 	s.AltPort = alt.Addr().(*net.TCPAddr).Port
 	s.lns = append(s.lns, alt)
@@ -302,6 +335,14 @@ func (s *Sim) serve(raw net.Conn, id int, lname string, cfg *tls.Config) {
 		return
 	}
 	raw.SetDeadline(time.Time{})
+	if pre != nil {
+		if p := pre(host); p != nil && p.StallStage == "no-read" {
+			// the handshake completes and then nothing is ever read: a client with a large request blocks in its write
+			s.record(Request{Conn: id, Listener: lname, Host: host, TLS: true, SNI: sni, At: time.Now()})
+			s.hold(raw, p.HoldMax)
+			return
+		}
+	}
 	// read the request: up to the blank line, or until the client stops sending
 	buf := make([]byte, 0, 4096)
 	tmp := make([]byte, 65536)
@@ -325,7 +366,8 @@ func (s *Sim) serve(raw net.Conn, id int, lname string, cfg *tls.Config) {
 		buf = append(buf, tmp[:n]...)
 	}
 	raw.SetReadDeadline(time.Time{})
-	req := s.record(Request{Conn: id, Listener: lname, Host: host, TLS: true, Raw: buf, SNI: sni, At: time.Now()})
+	cs := tc.ConnectionState()
+	req := s.record(Request{Conn: id, Listener: lname, Host: host, TLS: true, Raw: buf, SNI: sni, At: time.Now(), Resumed: cs.DidResume, ALPN: cs.NegotiatedProtocol})
 	if handler == nil {
 		tc.Close()
 		return
